@@ -298,6 +298,7 @@ pub enum Op {
     AggVerifyReentrant, // [aggsig, pop-per-entry flag(1), (pk, msg, pop)...] -> [verdict of every nested PoP verification (1 byte each)]  the scheme trait's aggregate_verify fed by an iterator whose closure calls ProofOfPossession::verify for the entry it is about to yield
     EgEncryptProofBlinder, // [pk, msk, blinder] -> [eproof]   trait-level seal_scalar_with_proof with a caller-supplied blinder
     VerifyIn,          // [codec(1), sig in that codec, codec(1), pk in that codec, msg] -> []   decode each component in the codec it arrived in, then Signature::verify on the decoded values (no detour through the byte form)
+    EgSealRaw,         // [pk, msk, generator (point of the key group)] -> [c1, c2, message_proof, blinder_proof, challenge]   trait-level BlsElGamal::seal_scalar_with_proof with a caller-supplied generator
     MultiSigVerifyKeys, // [msig, msg, pk...] -> []   trait-level BlsSignaturePop::multi_sig_verify over the list of keys
 }
 
